@@ -141,3 +141,26 @@ func VerifC16NotReserved() {
 	}
 	nd.Reach("end")
 }
+
+// VerifC16ReservedLogic: a reserved word is rejected wherever it stands inside a compound condition - in
+// either operand of AND / OR, under NOT, in parentheses - and whatever the other operand evaluates to on
+// the item at hand (both a true and a false companion are tried), so the verdict cannot depend on data.
+func VerifC16ReservedLogic() {
+	words := []string{"STATUS", "size", "Name", "ABORT", "zone", "Year", "COMMENT", "data"}
+	w := words[nd.Choice("word", len(words))]
+	templates := []string{
+		"a = :v OR W = :v", "W = :v OR a = :v", "a = :v AND W = :v", "W = :v AND a = :v",
+		"a = :v OR NOT W = :v", "a = :v OR ( W = :v )", "a = :v OR attribute_exists(W)", "a = :v OR W BETWEEN :v AND :v",
+		"a = :v OR W IN (:v)", "NOT ( a = :v OR W = :v )", "a = :v OR a = :v OR W = :v", "a = :v AND ( a = :v OR size(W) > :n )",
+	}
+	t := templates[nd.Choice("template", len(templates))]
+	// the companion "a = :v" is true for one item and false for the other
+	av := "x"
+	if nd.Choice("companion-true", 2) == 0 {
+		av = "y"
+	}
+	item := map[string]*types.Item{"a": vItemS(av)}
+	vals := map[string]*types.Item{":v": vItemS("x"), ":n": vItemN("1")}
+	nd.Assert(!vEvalCondition(vSubst(t, w), item, vals), "C16-reserved-word-rejected-whatever-the-companion-evaluates-to ["+t+"]")
+	nd.Reach("end")
+}
